@@ -64,6 +64,9 @@ def code_for_number_token(name, value, location):
     try:
         # Note: base 0 automatically handles prefixes like 0x.
         result = int(value, 0)
+        # Ensure the number can be shown in error messages and its length be computed; this fails with a ValueError
+        # for more digits than sys.get_int_max_str_digits().
+        str(result)
     except ValueError:
         raise errors.InterfaceError(
             "numeric value for %s must be an integer number but is: %s" % (name, _compat.text_repr(value)), location
